@@ -585,7 +585,11 @@ example : runKeys (run 60 { raw := rawHAB, macros := tblHAB }).1 =
 The class of texts grows (`TextP`, `ArgsOK`): the tokens between the parentheses of an invocation may
 name object-like macros of the table and may hold complete invocations of function-like macros
 (`F(G(A), (F(1, G(2)), y))`), to any depth; the name of a function-like macro is always followed by
-its parenthesised arguments; no new-line, no `#`.  `expandfunc` reads
+its parenthesised arguments; no new-line, no `#` token in the text.  The class of tables grows too
+(`TblOKS`): the replacement list of a function-like macro may hold `# parameter` (`SimpleFunS`: as
+`define` accepts it; no parameter is used both with `#` and outside: there lives the recorded finding
+stringize-nested-call), and the string the model builds while it reads the argument is the spelling the
+reference computes (`stringize_correct`).  `expandfunc` reads
 the arguments through `expand`: the replacement of a macro named in an argument is pushed on the
 context stack and delivered into the argument while the nesting depth tells it apart from the
 text of the invocation; the reference isolates each argument and replaces it completely on its
@@ -598,7 +602,7 @@ function-like macros and texts whose invocations have arguments with object-like
 nested invocations.  If
 the model's run completes, the reference — with `J` units of fuel or more — completes without
 diagnostic and delivers the same tokens by class and spelling (after `keyword()`). -/
-theorem function_like_args_correct_partial (ms0 : List Macro) (hTb : TblOK ms0) (n : Nat) (st : St) (g : GoodP ms0 st)
+theorem function_like_args_correct_partial (ms0 : List Macro) (hTb : TblOKS ms0) (n : Nat) (st : St) (g : GoodP ms0 st)
     (ht : TextP ms0 st.raw) (hrun : (run n st).2 = none) :
     ∃ J, ∀ K, J ≤ K →
       (MacroRef.expandH false K (tblF ms0) (absP ms0 st)).2.1 = none ∧
@@ -614,7 +618,7 @@ theorem function_like_args_correct_partial (ms0 : List Macro) (hTb : TblOK ms0) 
 
 /-- the same from the start of a text, with the class given by its executable tests (`tblOKb`,
 `textPb`), and the source of the reference written without paint marks (`absRawF`) -/
-theorem function_like_args_correct_init (ms0 : List Macro) (raw : List Tok) (n : Nat) (h1 : tblOKb ms0 = true)
+theorem function_like_args_correct_init (ms0 : List Macro) (raw : List Tok) (n : Nat) (h1 : tblOKSb ms0 = true)
     (h2 : ∀ m ∈ ms0, m.hide = false) (h3 : textPb ms0 (raw.length + 1) raw = true)
     (hrun : (run n { raw := raw, macros := ms0 }).2 = none) :
     ∃ J, ∀ K, J ≤ K →
@@ -622,8 +626,8 @@ theorem function_like_args_correct_init (ms0 : List Macro) (raw : List Tok) (n :
       (MacroRef.expandH false K (tblF ms0) ((absRawF raw).map .tok)).1.map (fun t => kwKey t.tok.key)
         = runKeys (run n { raw := raw, macros := ms0 }).1 := by
   have ht := textP_of_b ms0 _ raw h3
-  have := function_like_args_correct_partial ms0 (tblOK_of_b h1) n { raw := raw, macros := ms0 }
-    (goodP_init ms0 raw (tblOK_of_b h1) h2) ht hrun
+  have := function_like_args_correct_partial ms0 (tblOKS_of_b h1) n { raw := raw, macros := ms0 }
+    (goodP_init ms0 raw (tblOKS_of_b h1) h2) ht hrun
   have e : absP ms0 { raw := raw, macros := ms0 } = (absRawF raw).map .tok := by
     show absX ms0 _ _ = _
     rw [absX_nil_ctx ms0 _ _ rfl]
@@ -643,6 +647,21 @@ def rawNest : List Tok := [ident b!"H", tk .TLPAREN none true, ident b!"H" true,
   tk .TRPAREN none true, tk .TSEMICOLON none true, NL, tk .TEOF]
 example : textPb tblHAB (rawNest.length + 1) rawNest = true := by decide +kernel
 example : (run 120 { raw := rawNest, macros := tblHAB }).2 = none := by decide +kernel
+-- and `#define S(a, b) #a b` with the text `S ( H ( 1 , A ) "q" , B )`: the first argument is spelled, not replaced
+def pAs : Param := { name := b!"a", fstr := true }
+def mS : Macro := { func := true, name := b!"S", params := [pAs, pB],
+                    body := [tk .THASH none true, ident b!"a", ident b!"b" true] }
+def tblS : List Macro := mS :: tblHAB
+def rawS : List Tok := [ident b!"S", tk .TLPAREN none true, ident b!"H" true, tk .TLPAREN none true, num b!"1" true,
+  tk .TCOMMA none true, ident b!"A" true, tk .TRPAREN none true, tk .TSTRINGLIT (some b!"\"q\"") true, tk .TCOMMA none true,
+  ident b!"B" true, tk .TRPAREN none true, NL, tk .TEOF]
+example : tblOKSb tblS = true := by decide +kernel
+example : tblOKb tblS = false := by decide +kernel
+example : textPb tblS (rawS.length + 1) rawS = true := by decide +kernel
+example : runKeys (run 80 { raw := rawS, macros := tblS }).1 =
+    [tk .TSTRINGLIT (some b!"\"H ( 1 , A ) \\\"q\\\"\""), ident b!"B", ident b!"x", num b!"7"].map (fun t => (t.kind, t.lit)) := by
+  decide +kernel
+example : tblOKSb tblHAB = true := by decide +kernel
 example : textPb tblHAB (rawArgs.length + 1) rawArgs = true := by decide +kernel
 example : textOKb tblHAB (rawArgs.length + 1) rawArgs = false := by decide +kernel
 example : (run 80 { raw := rawArgs, macros := tblHAB }).2 = none := by decide +kernel
@@ -663,20 +682,20 @@ exists, and then (`fuel_monotone_run`) any larger amount gives the same run. -/
 
 /-- **Termination without a fuel hypothesis** for object-like and simple function-like macros,
 arguments with macro names and nested invocations. -/
-theorem function_like_terminates (ms0 : List Macro) (hTb : TblOK ms0) (st : St) (g : GoodP ms0 st)
+theorem function_like_terminates (ms0 : List Macro) (hTb : TblOKS ms0) (st : St) (g : GoodP ms0 st)
     (ht : TextP ms0 st.raw) : ∃ N, ∀ n, N ≤ n → (run n st).2 = none :=
   run_totalP ms0 hTb st g ht
 
 /-- **Total correctness on the class**: with enough fuel on both sides the model's run completes and
 is what the reference delivers (no hypothesis that the run completes). -/
-theorem function_like_correct_total (ms0 : List Macro) (raw : List Tok) (h1 : tblOKb ms0 = true)
+theorem function_like_correct_total (ms0 : List Macro) (raw : List Tok) (h1 : tblOKSb ms0 = true)
     (h2 : ∀ m ∈ ms0, m.hide = false) (h3 : textPb ms0 (raw.length + 1) raw = true) :
     ∃ N J, ∀ n K, N ≤ n → J ≤ K →
       (run n { raw := raw, macros := ms0 }).2 = none ∧
       (MacroRef.expandH false K (tblF ms0) ((absRawF raw).map .tok)).2.1 = none ∧
       (MacroRef.expandH false K (tblF ms0) ((absRawF raw).map .tok)).1.map (fun t => kwKey t.tok.key)
         = runKeys (run n { raw := raw, macros := ms0 }).1 := by
-  have hTb := tblOK_of_b h1
+  have hTb := tblOKS_of_b h1
   have ht := textP_of_b ms0 _ raw h3
   have g := goodP_init ms0 raw hTb h2
   obtain ⟨N, hN⟩ := function_like_terminates ms0 hTb { raw := raw, macros := ms0 } g ht
